@@ -524,10 +524,14 @@ func checkC07(c *Ctx) {
 		if ru2.Anchor(disp != nil, "dispatcher") {
 			c.R.Fn(c.fname(disp))
 			bad := ""
-			creates := core.CallsTo(disp, subsCreate)
-			gets := core.CallsTo(disp, tget)
-			sends := core.CallsTo(disp, wsend)
-			subacks := c.encodesOf(disp, "SubAck")
+			// the arm may be spread over helpers of the dispatcher (one per packet type, one per step)
+			creates := c.callsToDeep(disp, 3, subsCreate)
+			gets := c.callsToDeep(disp, 3, tget)
+			sends := c.callsToDeep(disp, 3, wsend)
+			var subacks []*core.Call
+			for _, g := range c.funcsDeep(disp, 3) {
+				subacks = append(subacks, c.encodesOf(g, "SubAck")...)
+			}
 			if len(creates) != 1 || len(gets) != 1 || len(sends) != 1 || len(subacks) != 1 {
 				bad = fmt.Sprintf("subscribe arm shape: %d Create, %d Topics.Get, %d Writer.Send, %d SUBACK (want 1 each)", len(creates), len(gets), len(sends), len(subacks))
 			} else {
@@ -553,7 +557,7 @@ func checkC07(c *Ctx) {
 				if srcOf(cr.Arg(1)) == nil || srcOf(cr.Arg(1)) != srcOf(g.Arg(0)) {
 					bad = "retained messages are looked up with other filters than the ones subscribed"
 				}
-				if !core.Dominates(ack.Instr, g.Instr) {
+				if !c.runsBefore(disp, ack.Instr, g.Instr) {
 					bad = "retained messages are replayed before (or without) the SUBACK"
 				}
 				// recipients: single-element slice holding session.ID()
@@ -584,8 +588,10 @@ func checkC07(c *Ctx) {
 					bad = "the replay does not use the QoS granted for that filter"
 				}
 				// early exits of the replay loop
-				if l := core.InnermostLoop(core.Loops(disp), g.Instr.Block()); l != nil {
-					paths, err := core.EnumPaths(disp, core.PathOpts{Start: g.Instr.Block()})
+				gf := g.Instr.Parent()
+				c.R.Fn(c.fname(gf))
+				if l := core.InnermostLoop(core.Loops(gf), g.Instr.Block()); l != nil {
+					paths, err := core.EnumPaths(gf, core.PathOpts{Start: g.Instr.Block()})
 					if err == nil {
 						ru2.Evals(len(paths))
 						for _, p := range paths {
